@@ -169,12 +169,18 @@ class RecipeGen {
 		Step s{.kind = "cond", .width = cw, .a = valueOf(cw)};
 		size_t n = 2 + rng.below(std::min<size_t>(5, (size_t(1) << sw)));
 		bool elseChain = rng.chance(1, 2);
+		bool ordering = rng.chance(1, 4);
+		static const char *orderOps[] = {"lt", "gt", "le", "ge"};
+		if (ordering && sw < 2) sw = 2, sel = vecOfWidth(sw);
+		if (ordering) n = std::max<size_t>(n, 3);
 		std::vector<int> conds;
 		for (size_t i = 0; i < n; i++) {
 			std::string bits; size_t v = rng.chance(3, 4) ? i % (size_t(1) << sw) : rng.below(size_t(1) << sw);
 			for (size_t b = sw; b-- > 0;) bits.push_back(((v >> b) & 1) ? '1' : '0');
 			Step c{.kind = "const", .width = sw, .str = bits}; int ci = add(c);
-			Step q{.kind = rng.chance(7, 8) ? "eq" : "ne", .width = 0, .a = sel, .b = ci}; conds.push_back(add(q));
+			// mostly ==; sometimes != ; in 1 chain of 4 ordering comparisons (a range decoder: IF (sel < 3) … IF (sel < 2) … — must NOT be merged like ==)
+			const char *kind = ordering ? orderOps[rng.below(4)] : (rng.chance(7, 8) ? "eq" : "ne");
+			Step q{.kind = kind, .width = 0, .a = sel, .b = ci}; conds.push_back(add(q));
 		}
 		size_t open = 0;
 		for (size_t i = 0; i < n; i++) {
